@@ -1,6 +1,38 @@
--- shard 15 of the closeness / tick-gap sweep (C06 (c), (e)): |tick| in [491520, 524288)
+-- shard 15 of the closeness / tick-gap sweep (C06 (c), (e)): |tick| in [491520, 524288), 16 blocks of 2^11
 import Proofs.Lemmas.ClosePred
 namespace Demeter.TickClose
 set_option maxRecDepth 100000 in
-theorem close_shard_15 : chkN closeSweepPred 491520 shardBits = true := by decide +kernel
+theorem close_blk_491520 : chkN closeSweepPred 491520 11 = true := by decide +kernel
+set_option maxRecDepth 100000 in
+theorem close_blk_493568 : chkN closeSweepPred 493568 11 = true := by decide +kernel
+set_option maxRecDepth 100000 in
+theorem close_blk_495616 : chkN closeSweepPred 495616 11 = true := by decide +kernel
+set_option maxRecDepth 100000 in
+theorem close_blk_497664 : chkN closeSweepPred 497664 11 = true := by decide +kernel
+set_option maxRecDepth 100000 in
+theorem close_blk_499712 : chkN closeSweepPred 499712 11 = true := by decide +kernel
+set_option maxRecDepth 100000 in
+theorem close_blk_501760 : chkN closeSweepPred 501760 11 = true := by decide +kernel
+set_option maxRecDepth 100000 in
+theorem close_blk_503808 : chkN closeSweepPred 503808 11 = true := by decide +kernel
+set_option maxRecDepth 100000 in
+theorem close_blk_505856 : chkN closeSweepPred 505856 11 = true := by decide +kernel
+set_option maxRecDepth 100000 in
+theorem close_blk_507904 : chkN closeSweepPred 507904 11 = true := by decide +kernel
+set_option maxRecDepth 100000 in
+theorem close_blk_509952 : chkN closeSweepPred 509952 11 = true := by decide +kernel
+set_option maxRecDepth 100000 in
+theorem close_blk_512000 : chkN closeSweepPred 512000 11 = true := by decide +kernel
+set_option maxRecDepth 100000 in
+theorem close_blk_514048 : chkN closeSweepPred 514048 11 = true := by decide +kernel
+set_option maxRecDepth 100000 in
+theorem close_blk_516096 : chkN closeSweepPred 516096 11 = true := by decide +kernel
+set_option maxRecDepth 100000 in
+theorem close_blk_518144 : chkN closeSweepPred 518144 11 = true := by decide +kernel
+set_option maxRecDepth 100000 in
+theorem close_blk_520192 : chkN closeSweepPred 520192 11 = true := by decide +kernel
+set_option maxRecDepth 100000 in
+theorem close_blk_522240 : chkN closeSweepPred 522240 11 = true := by decide +kernel
+theorem close_shard_15 : chkN closeSweepPred 491520 shardBits = true :=
+  (chkN_join _ 491520 14 (chkN_join _ 491520 13 (chkN_join _ 491520 12 (chkN_join _ 491520 11 close_blk_491520 close_blk_493568) (chkN_join _ 495616 11 close_blk_495616 close_blk_497664)) (chkN_join _ 499712 12 (chkN_join _ 499712 11 close_blk_499712 close_blk_501760) (chkN_join _ 503808 11 close_blk_503808 close_blk_505856))) (chkN_join _ 507904 13 (chkN_join _ 507904 12 (chkN_join _ 507904 11 close_blk_507904 close_blk_509952) (chkN_join _ 512000 11 close_blk_512000 close_blk_514048)) (chkN_join _ 516096 12 (chkN_join _ 516096 11 close_blk_516096 close_blk_518144) (chkN_join _ 520192 11 close_blk_520192 close_blk_522240))))
 end Demeter.TickClose
